@@ -22,8 +22,7 @@ import (
 	. "verifharness/hlib"
 
 	"github.com/cnotch/ipchub/av/format/flv"
-	"github.com/cnotch/ipchub/media/cache"
-	"github.com/cnotch/queue"
+	"github.com/cnotch/xlog"
 )
 
 func main() { Main("C08", runC08) }
@@ -103,6 +102,7 @@ func firstDiff(a, b []byte) int {
 }
 
 func runC08(c *Ctx) {
+	xlog.ReplaceGlobal(xlog.New(xlog.NewNopCore())) // the streams of the service cases log through the global logger
 	c.Res.Rule = "case = (stream metadata, parameter sets, frame sequence with NAL types/sizes/PTS/DTS, index at which the parameter sets become known) run through the real flv.Muxer+flv.Writer, " +
 		"or (type flags, tag sequence as delivered to one client — generated, or produced by the real muxer and replayed from the real FlvCache at every join point) run through the real flv.Writer; " +
 		"distinct by the op line without the implementation's bytes; non-trivial when at least one media tag is written"
@@ -221,12 +221,18 @@ func runC08(c *Ctx) {
 		return &res
 	}
 	wsamples := 0
+	var svcOut []byte // set: the bytes come from the HTTP-FLV / WebSocket-FLV service instead of a bare flv.Writer
 	doWr := func(wc *wrCase) {
 		tags := make([]*flv.Tag, len(wc.tags))
 		for i, t := range wc.tags {
 			tags[i] = &flv.Tag{TagType: byte(t.typ), Timestamp: uint32(t.time), DataSize: uint32(len(t.data)), Data: t.data}
 		}
-		res := runWriter(byte(wc.flags), tags)
+		var res wrResult
+		if svcOut != nil {
+			res.out = svcOut
+		} else {
+			res = runWriter(byte(wc.flags), tags)
+		}
 		impl := Hx(res.out)
 		if res.newErr {
 			impl = "err"
@@ -242,6 +248,16 @@ func runC08(c *Ctx) {
 			c.Sample(detail + " out=" + shortHex(res.out))
 		}
 		add(pending{line: line, kind: "wr", gen: wc.gen, impl: impl, implHex: Hx(res.out), class: wrClass(wc), detail: detail, key: wc.line("gen", nil), nontri: len(wc.tags) > 0})
+		if wc.mc != nil && !res.newErr && res.panicked == "" {
+			// the same bytes against the join-aware statement (configuration before media, each
+			// media tag = a source frame of some tail of the sequence)
+			jl := wc.mc.line("join", "", res.out)
+			cls := "join-order-or-fidelity"
+			if wrClass(wc) != "wr" {
+				cls = wrClass(wc)
+			}
+			add(pending{line: jl, kind: "join", gen: wc.gen + "-oracle", impl: impl, implHex: Hx(res.out), class: cls, detail: detail + " frames=" + frameSummary(wc.mc), key: jl, nontri: len(wc.tags) > 3})
+		}
 	}
 
 	// ---- corpus / replay first ----
@@ -258,9 +274,9 @@ func runC08(c *Ctx) {
 	// ---- generated frame sequences through the real muxer + writer, and — with the tags the
 	//      real muxer produced — a client joining at every tag through the real FlvCache ----
 	if c.Thorough() {
-		bigPct, wrBigPermille = 25, 15
+		bigPct, wrBigPermille = 20, 12
 	}
-	nMux := c.Budget(2500, 25000)
+	nMux := c.Budget(2500, 15000)
 	for i := 0; i < nMux; i++ {
 		mc := genMuxCase(c.Rng, c.Count, c.Thorough())
 		res := doMux(mc)
@@ -270,8 +286,49 @@ func runC08(c *Ctx) {
 			}
 		}
 	}
+	// ---- the services end to end: a media.Stream, a client attached through ConsumeByHTTP /
+	//      ConsumeByWebsocket after k frames, cache_gop on and off ----
+	nSvc := c.Budget(250, 2500)
+	for i := 0; i < nSvc; i++ {
+		mc := genMuxCase(c.Rng, func(string) {}, false)
+		mc.known = 0
+		if mc.codec == "other" || !ready(mc) || len(mc.frames) == 0 {
+			continue
+		}
+		okc := true
+		for _, f := range mc.frames {
+			if f.mt == 0 && len(f.payload) == 0 || len(f.payload) > 4000 {
+				okc = false
+			}
+		}
+		if !okc {
+			continue
+		}
+		k := c.Rng.Intn(len(mc.frames) + 1)
+		gop, ws := c.Rng.Bool(), c.Rng.Chance(35)
+		sr := runService(mc, k, gop, ws)
+		kind := "http-flv"
+		if ws {
+			kind = "ws-flv"
+		}
+		if sr.problem != "" {
+			c.Find(Finding{Kind: "corr", Class: kind, Case: mc.line("gen", "", nil), Impl: sr.problem, Model: "a served client", Detail: fmt.Sprintf("k=%d gop=%v", k, gop)})
+			continue
+		}
+		c.Count(fmt.Sprintf("%s-joined-after-%s-frames-gop=%v", kind, bucket(k), gop))
+		if !ws && sr.ctype != "video/x-flv" {
+			c.Count("http-flv-content-type-not-video/x-flv")
+		}
+		sr.wc.mc = mc
+		svcOut = sr.out
+		if svcOut == nil {
+			svcOut = []byte{}
+		}
+		doWr(sr.wc)
+		svcOut = nil
+	}
 	// ---- generated tag sequences through the real writer ----
-	nWr := c.Budget(4000, 40000)
+	nWr := c.Budget(4000, 30000)
 	for i := 0; i < nWr; i++ {
 		doWr(genWrCase(c.Rng, c.Count))
 	}
@@ -342,31 +399,12 @@ func shorten(s string) string {
 // does (CachePack, then delivery); a client joining before tag k is handed PushTo's replay and
 // then the live tags k….  Source times of the tags are known from the frames.
 func joinCases(c *Ctx, mc *muxCase, res *muxResult) []*wrCase {
-	s := startIndex(mc)
-	if s < 0 || !ready(mc) {
+	if startIndex(mc) < 0 || mc.known != 0 || len(res.tags) > 40 {
 		return nil
 	}
-	var times []int64
-	npre := 2
-	if mc.aac {
-		npre = 3
-	}
-	for i := 0; i < npre; i++ {
-		times = append(times, 0)
-	}
-	for _, f := range mc.frames[s:] {
-		if f.mt == 0 {
-			times = append(times, f.dts/msNs)
-		} else if f.mt == 1 && mc.aac {
-			times = append(times, f.pts/msNs)
-		}
-	}
-	if len(times) != len(res.tags) || len(res.tags) > 40 {
+	times, ok := tagTimes(mc, len(res.tags))
+	if !ok {
 		return nil // the mux comparison reports the disagreement
-	}
-	tm := map[*flv.Tag]int64{}
-	for i, t := range res.tags {
-		tm[t] = times[i]
 	}
 	var out []*wrCase
 	flags := 4
@@ -374,55 +412,22 @@ func joinCases(c *Ctx, mc *muxCase, res *muxResult) []*wrCase {
 		flags = 5
 	}
 	for _, gop := range []bool{true, false} {
-		ks := []int{}
 		for k := 0; k <= len(res.tags); k++ {
-			if len(res.tags) <= 10 || c.Rng.Chance(30) {
-				ks = append(ks, k)
+			if len(res.tags) > 10 && !c.Rng.Chance(30) {
+				continue
 			}
-		}
-		for _, k := range ks {
-			fc := cache.NewFlvCache(gop)
-			for _, t := range res.tags[:k] {
-				fc.CachePack(t)
-			}
-			q := queue.NewSyncQueue()
-			fc.PushTo(q)
-			var delivered []*flv.Tag
-			for q.Queue().Len() > 0 {
-				e, _ := q.Queue().Pop()
-				delivered = append(delivered, e.(*flv.Tag))
-			}
-			nReplay := len(delivered)
-			delivered = append(delivered, res.tags[k:]...)
-			// source time of the replayed copies of the configuration tags = that of the first
-			// cached GOP tag (PushTo stamps them with gop[0].Timestamp), 0 without a cached GOP
-			var init int64
-			for _, t := range delivered[:nReplay] {
-				if v, ok := tm[t]; ok {
-					init = v
-					break
-				}
-			}
-			wc := &wrCase{flags: flags, gen: "join"}
+			wc := deliveredCase(res.tags, times, k, gop, flags)
+			wc.mc = mc
+			wc.gen = "join"
 			if gop {
 				wc.gen = "join-gop"
 			}
-			for _, t := range delivered {
-				v, ok := tm[t]
-				if !ok {
-					v = init
-				}
-				wc.tags = append(wc.tags, srcTag{typ: int(t.TagType), time: v, data: t.Data})
-			}
-			c.Count(fmt.Sprintf("%s-replayed-%s", wc.gen, bucket(nReplay)))
-			older := false
+			c.Count(fmt.Sprintf("%s-replayed-%s", wc.gen, bucket(wc.replayed)))
 			for _, t := range wc.tags {
-				if len(wc.tags) > 0 && t.time < wc.tags[0].time {
-					older = true
+				if t.time < wc.tags[0].time {
+					c.Count(wc.gen + "-has-tag-older-than-first")
+					break
 				}
-			}
-			if older {
-				c.Count(wc.gen + "-has-tag-older-than-first")
 			}
 			out = append(out, wc)
 		}
